@@ -83,6 +83,8 @@ type FaultPlan struct {
 	Front map[int]ConnFaults
 	// back-end dial indexes that are refused
 	RefuseDial []int
+	// every back-end dial takes this long (simulated time) to complete
+	SlowDial time.Duration
 	// panics injected at user callbacks: "getcert","getconfig","connstate","injector","handler" -> occurrence (1-based)
 	PanicAt   map[string]int
 	PanicAddr string // only callbacks made for this peer address count (empty: all)
@@ -412,6 +414,7 @@ func NewWorld(t testingT, plan *Plan) *World {
 	for _, i := range plan.Faults.RefuseDial {
 		w.Dialer.RefuseAt[i] = true
 	}
+	w.Dialer.Hold = plan.Faults.SlowDial
 	http.DefaultTransport = &http.Transport{
 		DialContext:           w.Dialer.DialContext,
 		DisableKeepAlives:     !plan.BackendKeepAlive,
